@@ -278,6 +278,6 @@ def write_cases(draw):
 def parts(tier):
     return [
         Enum("null-spelling-grid", read_grid),
-        Hyp("read-side", read_cases, quick=3000, thorough=80000),
-        Hyp("write-side", write_cases, quick=1200, thorough=30000),
+        Hyp("read-side", read_cases, quick=8000, thorough=80000),
+        Hyp("write-side", write_cases, quick=3000, thorough=30000),
     ]
